@@ -39,3 +39,17 @@ func (cs *ChainService) VerifStopValidator()                   { cs.validator.St
 
 // VerifExecuteTx runs the real executeTx against bs (used by tx-level conformance).
 var VerifExecuteTx = executeTx
+
+// VerifKill stops the chain service's actors but leaves the signature verifier alone (closing its channels
+// while verifier goroutines of abandoned verifications are still pending panics the process).
+func (cs *ChainService) VerifKill() {
+	cs.chainManager.Stop()
+	cs.chainWorker.Stop()
+	cs.BaseComponent.VerifKill()
+}
+
+// VerifVerifierQueued reports how many signature-verification work items/results are queued.
+func (cs *ChainService) VerifVerifierQueued() int {
+	sv := cs.validator.signVerifier
+	return len(sv.workCh) + len(sv.doneCh)
+}
